@@ -382,6 +382,29 @@ def run(ctx, model_ok, deep=False):
                         same = False
                     if not same:
                         V("falsifier:cli-jwk2key", "jwk2key did not write back the same %s key" % (spec,))
+        # ---------------- several key files in one run: each is converted as if it were alone -----------------
+        files_ = []
+        for fi, (kind_, param_, private) in enumerate([("oct", 32, True), ("rsa", 2048, False), ("ec", "P-256", False), ("okp", "ED25519", True), ("oct", 48, True),
+                                                       ("ec", "P-384", True), ("rsa", 2048, True), ("okp", "ED448", False)]):
+            key = K.Key("oct", k=os.urandom(param_), bits=8 * param_) if kind_ == "oct" else K.gen_key(kind_, param_, workdir=ctx.scratch)
+            fp_ = os.path.join(d, "multi_%d.key" % fi)
+            open(fp_, "wb").write(key.k if kind_ == "oct" else key.pem(private))
+            rc, out, err = tool(ctx, "key2jwk", ["-q", "-o", "-", fp_])
+            ok, tree = jsonlib.loads(out)
+            if rc == 0 and ok and isinstance(tree.get("keys"), list) and len(tree["keys"]) == 1:
+                files_.append((fp_, "%s%s" % (kind_, "" if private else "-public"), tree["keys"][0]))
+        orders = [list(range(len(files_))), list(range(len(files_)))[::-1]] + [ctx.rng.sample(range(len(files_)), len(files_)) for _ in range(8 if tier == "thorough" else 4)]
+        for od_ in orders:
+            rc, out, err = tool(ctx, "key2jwk", ["-q", "-o", "-"] + [files_[i][0] for i in od_])
+            ev += 1
+            distinct.add(("key2jwk-multi", tuple(od_)[:3], rc))
+            ok, tree = jsonlib.loads(out)
+            got = tree.get("keys") if ok and isinstance(tree, dict) else None
+            strip_ = lambda j: {k_: v_ for k_, v_ in j.items() if k_ != "kid"}
+            if rc != 0 or not isinstance(got, list) or len(got) != len(od_) or any(strip_(g_) != strip_(files_[i][2]) for g_, i in zip(got, od_)):
+                wrong = [files_[i][1] for n_, i in enumerate(od_) if not isinstance(got, list) or n_ >= len(got) or strip_(got[n_]) != strip_(files_[i][2])]
+                V("falsifier:cli-key2jwk-multi", "key2jwk given %d key files in one run (order: %s) does not convert each as it does alone (status %d; differing: %s)" % (
+                    len(od_), " ".join(files_[i][1] for i in od_), rc, ", ".join(wrong[:4])), ["# key2jwk -q -o - " + " ".join(files_[i][1] for i in od_)])
         ctx.notes.append("EC P-256 keys drawn: %d, with a leading-zero coordinate/private value: %d" % (n_ec, lead0))
         ctx.add_suite("cli", evaluations=ev, distinct_nontrivial=len(distinct),
                       rule="jwt-verify with 0..512 failing and 0..3 good tokens as arguments and on stdin; short vs long spelling of every documented option; jwt-generate -> jwt-verify per key type; key2jwk/jwk2key on fresh keys of every type (EC P-256 drawn until leading-zero values occur); distinct = (tool, case class, status)",
